@@ -163,8 +163,10 @@ struct C15World: World {
             break; }
           case V_UNION: case V_INTERSECT: {
             const bool compatible = (s.c & 3) != 3;
-            S other = compatible ? S::builder::create_by_size(num_bits, nh, seed, A(1)) : S::builder::create_by_size(num_bits + 64, nh, seed, A(1));
-            BitModel om; om.init(compatible ? num_bits : num_bits + 64, nh, seed);
+            // incompatible in one of three ways: another capacity, another number of hashes (same seed and capacity), another seed
+            const int how = static_cast<int>(s.b % 3);
+            S other = compatible ? S::builder::create_by_size(num_bits, nh, seed, A(1)) : how == 0 ? S::builder::create_by_size(num_bits + 64, nh, seed, A(1)) : how == 1 ? S::builder::create_by_size(num_bits, static_cast<uint16_t>(nh + 1), seed, A(1)) : S::builder::create_by_size(num_bits, nh, seed + 1, A(1));
+            BitModel om; om.init(compatible || how != 0 ? num_bits : num_bits + 64, compatible || how != 1 ? nh : nh + 1, compatible || how != 2 ? seed : seed + 1);
             for (i64 j = 0; j < 20; j++) { other.update(static_cast<int64_t>(s.b + j)); om.insert(canon_i64(s.b + j)); }
             if (!compatible) { bool threw = false; const std::vector<uint8_t> before = m.bits; try { if (s.kind == V_UNION) f.union_with(other); else f.intersect(other); } catch (const std::invalid_argument&) { threw = true; }
               ctx.require(threw && !f.is_compatible(other), "C15|incompatible-set-operation-not-refused", names[s.kind]); ctx.fault("refused_op"); break; }
